@@ -4,5 +4,6 @@ package scrape
 
 var vEntries = map[string]interface{}{
 	"VStats": VStats,
+	"VManagerReload": VManagerReload,
 	"VTee":   VTee,
 }
